@@ -1,0 +1,21 @@
+//go:build verif
+
+package interpreter
+
+import (
+	"github.com/ysugimoto/falco/v2/interpreter/context"
+	"github.com/ysugimoto/falco/v2/interpreter/value"
+)
+
+// Read-only accessors for the verification harness (store / frame properties).
+// Built only with the "verif" tag; nothing here changes interpreter behaviour.
+
+// VerifStoreLocals returns the local variables of the frame that is executing now
+// (the map itself, so that the harness sees the very cells the interpreter uses).
+func (i *Interpreter) VerifStoreLocals() map[string]value.Value { return i.localVars }
+
+// VerifStoreContext returns the interpreter context (nil before ProcessInit).
+func (i *Interpreter) VerifStoreContext() *context.Context { return i.ctx }
+
+// VerifStoreCallDepth returns the number of subroutine frames on the call stack.
+func (i *Interpreter) VerifStoreCallDepth() int { return len(i.callStack) }
